@@ -27,7 +27,7 @@ REGISTRY = {
         "SQLite cannot parse the parenthesised nested compound selects SQLAlchemy renders for a chain whose operand is a bare chain: such states are compiled but not executed (counted in evidence)"]},
     "C07": {"families": [fam_proc.run, fam_multi.run, fam_rand.run], "assumptions": [
         "the Processor used is the harness's real one (SQLite temp tables <-> RowSequence); its hooks evaluate the source for real, so 'evaluable by the source engine on its own' is observed, not assumed"]},
-    "C09": {"families": [fam_pool.run, fam_multi.run], "assumptions": [
+    "C09": {"families": [fam_pool.run, fam_multi.run, fam_rand.run], "assumptions": [
         "histories beyond depth 2-3 are sampled by TLC's simulation mode (seeded by VERIF_SEED), not enumerated"]},
     "C10": {"families": [fam_proc.run], "assumptions": [
         "the leaf below the materializations is a counting lazy payload (iteration-sourced trees); at most one iteration of it over a whole history is the observable form of 'evaluated at most once'"]},
